@@ -198,9 +198,31 @@ def threshold_pairs(chk):
             per[link]['n'] += 1
             if not cl.refines([v for _, v in f1], [v for _, v in f2]):
                 per[link]['fails'].append((link, m, t1, t2, f1, f2))
-            if s2[:len(s1)] != s1 or s2[-1] != f2 or s1[-1] != f1:
+            if not s1 or not s2 or s2[:len(s1)] != s1 or s2[-1] != f2 or s1[-1] != f1:     # (no recorded state at all: the clusterer was not entered)
                 per[link]['badp'].append((link, m, t1, t2))
             per[link]['chains'].append((s2, m, t1, t2))
+    if any(per[l]['badp'] for l in cl.LINKS) and not any(per[l]['fails'] for l in cl.LINKS):
+        # the merge sequence depends on the threshold: search small grid-valued matrices (many exact ties, thresholds equal to entries
+        # and between them) for clusters that are not nested
+        grid = [0.25, 0.375, 0.5, 0.5625, 0.75, 1.0]
+        for _ in range(chk.n(3000, 40000)):
+            k = rng.choice([4, 4, 5, 6])
+            m = cl.sym(k, lambda i, j: rng.choice(grid))
+            ts = sorted(set(grid + [(a + b) / 2 for a, b in zip(grid, grid[1:])]))
+            hit = False
+            for link in cl.LINKS:
+                parts = []
+                for t in ts:
+                    res = _cluster.flat_cluster(link, t, [list(r) for r in m])
+                    parts.append((t, [(kk, list(v)) for kk, v in res.items()]))
+                    chk.evaluations += 1
+                for i in range(len(parts)):
+                    for j in range(i + 1, len(parts)):
+                        if not hit and not cl.refines([v for _, v in parts[i][1]], [v for _, v in parts[j][1]]):
+                            per[link]['fails'].append((link, m, parts[i][0], parts[j][0], parts[i][1], parts[j][1]))
+                            hit = True
+            if hit:
+                break
     for link in cl.LINKS:
         p = per[link]
         outs = drv.ask_many(['chainok|' + st_str(s2) for s2, _, _, _ in p['chains']])
